@@ -35,9 +35,9 @@ func init() {
 		ID:    "R01.3",
 		Title: "map keys and parameter names are escaped like strings",
 		Text: "Taint rule: in every rawWriter.writeKey implementation the key parameter reaches the buffer only through the flavour's string escaper (jwriter.Writer.String for JSON, the stringEscaper field for ROR2) — never through RawString/RawByte/Raw directly; " +
-			"readFieldName decodes the raw name with the reader's decoder; BuildQueryParams escapes parameter names.",
-		Props: []string{"C01", "C03"},
-		Floor: map[string]int{"v2": 4, "root": 4},
+			"readFieldName decodes the raw name with the reader's decoder; the JSON reader asks the lexer for unescaped names (UnsafeFieldName(false)); BuildQueryParams escapes parameter names.",
+		Props: []string{"C01", "C03", "C02"},
+		Floor: map[string]int{"v2": 5, "root": 5},
 		Run:   runR013,
 	})
 	core.Register(&core.Rule{
@@ -411,6 +411,31 @@ func runR013(c *core.Ctx) {
 		return true
 	})
 	c.Check(dec, rel, "(*ror2Reader).readFieldName", "field names are decoded with the reader's decoder", rfd.Pos(), "", "the raw bytes of the name are returned undecoded: escaped keys do not round-trip")
+	// the JSON reader takes its keys unescaped from the lexer
+	nNames := 0
+	for _, fd := range c.M.FuncDecls(rel) {
+		if fd.Body == nil {
+			continue
+		}
+		ast.Inspect(fd.Body, func(x ast.Node) bool {
+			call, ok := x.(*ast.CallExpr)
+			if !ok {
+				return true
+			}
+			f := core.Callee(inf, call)
+			if f == nil || !core.IsMethod(f, "github.com/mailru/easyjson/jlexer", "Lexer", "UnsafeFieldName") || len(call.Args) != 1 {
+				return true
+			}
+			nNames++
+			v := core.ConstOf(inf, call.Args[0])
+			c.Check(v != nil && v.String() == "false", rel, core.DeclName(fd), fmt.Sprintf("JSON member name #%d is unescaped by the lexer", ordinal(fd, call)), call.Pos(), "UnsafeFieldName(false)",
+				"UnsafeFieldName("+core.ExprString(call.Args[0])+") may skip unescaping: a key containing an escaped quote, backslash or \\uXXXX arrives in its wire form")
+			return true
+		})
+	}
+	if nNames == 0 {
+		c.Unknown(rel, "-", "jlexer.UnsafeFieldName call sites", token.NoPos, "none found")
+	}
 	// the query builder escapes parameter names (BuildQueryParams in v2, queryParamsWriter.WriteParams in the root module)
 	bqName := "BuildQueryParams"
 	if c.M.LookupFunc(rel, bqName) == nil {
